@@ -59,3 +59,13 @@ Proof.
   split; [intros e [<-|[<-|[<-|[]]]]; exact I|].
   repeat split; vm_compute; reflexivity.
 Qed.
+
+(* RefCounter.retain / release of the model are the expressions regenerated from the source on this run *)
+From SZ Require Import Base.BridgeRefCounter.
+Theorem C05_refcounter_kernel_matches_source : forall w r n,
+  cnt (release1 w r n) r = fst (Gen.KRefCounter.gen_rc_release (cnt w r) n) /\
+  fired (release1 w r n) = if snd (Gen.KRefCounter.gen_rc_release (cnt w r) n) then fired w ++ [r] else fired w.
+Proof. exact bridge_rc_release_sync. Qed.
+Theorem C05_refcounter_retain_matches_source : forall w r n, cnt (retain1 w r n) r = Gen.KRefCounter.gen_rc_retain (cnt w r) n.
+Proof. exact bridge_rc_retain_sync. Qed.
+Print Assumptions C05_refcounter_kernel_matches_source.
